@@ -133,6 +133,21 @@ CHECKS = {
             'blanks of header values are not significant in HTTP',
             'deterministic simulation (degenerate): seeded operation '
             'programs observed at the simulated transport, DTD oracle'),
+    'C18': ('store', 'exploration',
+            'seeded multi-manager histories on 1-2 mock WBEM servers with '
+            'Interop namespace: interleaved add/remove of destinations, '
+            'filters, subscriptions (owned/permanent), duplicates, '
+            'remove_server/remove_all_servers/__exit__, foreign instances, '
+            'client crash at the k-th request inside an operation and '
+            'restart with the same ID; every step is judged by the legality '
+            'of the server-store diff and by owned/all lists against the '
+            'reference model and the server',
+            'manager IDs are sampled from a pool with regex metacharacters '
+            'and prefix relations; managers remove only their own or '
+            'permanent instances; user-chosen Names exactly of the owned '
+            'form of an ID in use are excluded; one open known finding',
+            'deterministic simulation: seeded multi-client histories with '
+            'crash/restart fault injection against a reference model'),
 }
 
 ENGINES = [
